@@ -120,6 +120,8 @@ def replay_population(col, item):
         for q in case["qs"]:
             s, e, xn, xp, white, black, exp = q
             n += 1
+            if style.endswith("-notag") and (white or black):
+                continue        # the template has no {tag}: placeholder filters have nothing to act on
             fs.exclude_files([tree.path_of[i] for i in xn])
             fs.exclude_times([(emb.t(a), emb.t(b)) for a, b in xp] or None)
             flt = filters_of(white, black)
